@@ -85,8 +85,13 @@ fn limit_bits(n: Network) -> u32 {
 }
 
 fn random_bits(rng: &mut Rng, net: Network) -> u32 {
-    if net == Network::Regtest {
+    // a standard regtest chain only ever has pow-limit bits; the rule is nevertheless defined for
+    // any header chain (custom genesis), so other values are exercised as well
+    if net == Network::Regtest && rng.chance(1, 2) {
         return 0x207fffff;
+    }
+    if net == Network::Regtest && rng.chance(1, 2) {
+        return *rng.pick(&[0x2000ffffu32, 0x1f00ffff, 0x1e0377ae]);
     }
     match rng.below(6) {
         0 => 0x1d00ffff,
